@@ -112,6 +112,7 @@ def lstepOfJson (j : Json) : Except String LStep := do
     let ns ← rest.mapM fun x => x.getNat?
     match kind, ns with
     | "schedule", [ra, key, tx] => pure (.schedule ra key tx)
+    | "scheduleBad", [ra, key, tx] => pure (.scheduleBad ra key tx)
     | "commit", [tx] => pure (.commit tx)
     | "rollback", [tx] => pure (.rollback tx)
     | "tick", [n] => pure (.tick n)
@@ -139,7 +140,7 @@ def lstateJson (batch : Option Nat) (s : LState) (keys : List Nat) : Json :=
   Json.mkObj [
     ("clock", toJson s.clock),
     ("rows", Json.arr (s.rows.map fun r =>
-      Json.arr #[toJson r.executeAt, toJson r.processing, toJson r.key, Json.str (visStr r.vis)]).toArray),
+      Json.arr #[toJson r.executeAt, toJson r.processing, toJson r.key, toJson r.bad, Json.str (visStr r.vis)]).toArray),
     ("insts", Json.arr (s.insts.map fun x => Json.arr #[toJson x.1, lphaseJson x.2]).toArray),
     ("log", Json.arr (s.log.reverse.map tripleJson).toArray),
     ("caps", Json.arr (s.caps.reverse.map tripleJson).toArray),
